@@ -75,6 +75,16 @@ fn num_text(class: &str, len: u64) -> String {
         c => panic!("numeric class {}", c),
     }
 }
+fn size_of_class(c: &str) -> usize {
+    match c {
+        "1k" => 1 << 10,
+        "1m" => 1 << 20,
+        "15m" => 15 << 20,
+        "17m" => 17 << 20,
+        "64m" => 64 << 20,
+        c => panic!("size class {}", c),
+    }
+}
 fn nwin(arg: &str, len: u64) -> Option<(String, String)> {
     let p: Vec<&str> = arg.strip_prefix("nwin:")?.split(':').collect();
     Some((num_text(p[0], len), num_text(p[1], len)))
@@ -126,6 +136,13 @@ fn concretise(verb: &str, arg: &str, tk: Option<&str>, f: &Files, big: bool) -> 
             "junk" => "now 1 2".to_string(),
             _ => panic!("plain arg {}", arg),
         }),
+        "stream" | "query" if arg.starts_with("pad:") => {
+            // the plain well-formed request padded with JSON white space up to the size class
+            let head = format!("{} {{\"window\":[0,5],\"binary\":true,", verb);
+            let tail = format!("\"filters\":{}}}", filt);
+            let n = size_of_class(&arg[4..]).saturating_sub(head.len() + tail.len());
+            format!("{}{}{}", head, " ".repeat(n), tail)
+        }
         "stream" | "query" if arg.starts_with("nwin:") => {
             let (a, b) = nwin(arg, f.n_small).unwrap();
             format!("{} {{\"window\":[{},{}],\"binary\":true,\"filters\":{}}}", verb, a, b, filt)
@@ -243,6 +260,7 @@ fn concretise(verb: &str, arg: &str, tk: Option<&str>, f: &Files, big: bool) -> 
             "stream_window" => "stream_window 1 0,5".to_string(),
             "leadingspace" => " close".to_string(),
             "sentinel" => "__end_of_history__".to_string(),
+            a if a.starts_with("big:") => format!("frobnicate {}", "x".repeat(size_of_class(&a[4..]))),
             _ => panic!("unknown arg {}", arg),
         },
         _ => panic!("verb {}", verb),
@@ -735,6 +753,8 @@ fn scripted() -> Vec<CaseSpec> {
         // plugins configured twice under the same name: one plugin_cmd = one reply (a stray frame would answer the next command)
         mk(false, "awaited", vec![step("open", "ok_plugins_dup", ""), step("plugin_cmd", "ft_cmd", ""), step("fs", "stat_ok", ""), step("plugin_cmd", "rw_cmd", ""), step("pause", "", ""), step("plugin_cmd", "ft_cmd", ""), step("plugin_cmd", "noplugin", ""), step("resume", "", ""), step("plugin_cmd", "rw_cmd", ""), step("close", "", ""), step("plugin_cmd", "ft_cmd", ""), step("open", "ok_plugins", ""), step("plugin_cmd", "rw_cmd", ""), step("plugin_cmd", "ft_cmd", ""), step("close", "", "")]),
         mk(false, "pipelined", vec![step("open", "ok_plugins_dup", ""), step("plugin_cmd", "ft_cmd", ""), step("plugin_cmd", "rw_cmd", ""), step("stream", "ok", ""), step("plugin_cmd", "ft_cmd", ""), step("stop", "", "none"), step("plugin_cmd", "rw_cmd", ""), step("close", "", "")]),
+        // command frames of every size class (16 MiB is a default frame limit of the websocket library; the server allows 1 GB messages)
+        mk(false, "awaited", vec![step("unknown", "big:1k", ""), step("open", "ok", ""), step("stream", "pad:1k", ""), step("stream", "pad:1m", ""), step("unknown", "big:1m", ""), step("stop", "", "h1"), step("stream", "pad:17m", ""), step("stop", "", "h3"), step("unknown", "big:17m", ""), step("query", "pad:1k", ""), step("close", "", "")]),
         // several queries ending in the same pass of the server loop (registered while paused / pipelined), with and without a stream behind them
         mk(false, "awaited", vec![step("open", "ok", ""), step("wait", "", ""), step("pause", "", ""), step("query", "ok", ""), step("query", "ok_filt", ""), step("stream", "ok", ""), step("resume", "", ""), step("sleep", "300", ""), step("stream_change_window", "ok", "h3"), step("stream_search", "ok", "h3"), step("stop", "", "h3"), step("close", "", "")]),
         mk(false, "awaited", vec![step("open", "ok", ""), step("wait", "", ""), step("pause", "", ""), step("query", "ok", ""), step("query", "ok", ""), step("query", "ok_filt", ""), step("resume", "", ""), step("sleep", "300", ""), step("fs", "stat_ok", ""), step("stream", "ok", ""), step("stop", "", "h4"), step("close", "", "")]),
@@ -914,6 +934,11 @@ fn main() {
         cases.push(hs(vec![step("open", "ok_huge", ""), step("close", "", ""), step("open", "ok", ""), step("close", "", "")]));
         cases.push(hs(vec![step("open", "ok_huge_onepass", ""), step("sleep", &wait_ms, ""), step("close", "", ""), step("open", "ok", ""), step("close", "", "")]));
         cases.push(hs(vec![step("open", "ok_huge", ""), step("pause", "", ""), step("sleep", &wait_ms, ""), step("stream", "ok", ""), step("close", "", ""), step("open", "ok_huge", ""), step("sleep", "300", ""), step("close", "", ""), step("fs", "stat_ok", "")]));
+    }
+    if a.has("--all-sizes") && !a.has("--no-scripted") {
+        let mk = |v: Vec<Step>| CaseSpec { src: "scripted", mode: "awaited", big: false, huge: false, numeric: false, steps: v };
+        cases.push(mk(vec![step("open", "ok", ""), step("stream", "pad:15m", ""), step("unknown", "big:15m", ""), step("stream", "pad:64m", ""), step("unknown", "big:64m", ""), step("stop", "", "h1"), step("stop", "", "h2"), step("close", "", "")]));
+        cases.push(mk(vec![step("unknown", "big:64m", ""), step("unknown", "big:17m", ""), step("open", "ok", ""), step("query", "pad:17m", ""), step("close", "", "")]));
     }
     let mut rng = Rng::new(seed);
     for k in 0..n_random {
